@@ -21,12 +21,13 @@ TRUSTED = ["Coq 8.16.1 kernel + vm_compute (primitive floats: bit-exact IEEE-754
            "(Complex<Rat> vs Qc exact; Complex<f64> vs primitive floats, bitwise on the assignment-vs-binary cases)"]
 ASSUMPTIONS = ["Rust operator dispatch / by-value operand semantics as modelled; f64 + - * / sqrt are IEEE-754 correctly rounded (as Coq's primitive floats are)",
                "the sampled cases are where model and code were compared; the theorems are about the model"]
-UNPROVED = ["the 'few ulps' accuracy of the f64 instantiation is proved for the float instance of the MODEL (Coq primitive binary64 through "
-            "Flocq: cmul_rounding_bound, normwise 2.83*2^-53, and componentwise 2^-53 for + and -; no overflow / subnormal intermediate) "
-            "and only for multiplication, addition and subtraction: for division, abs_sqr, abs and the real-scalar forms it is tied bitwise "
-            "to the float model and searched (normwise <= 8*2^-53 against the exact rational result), not proved",
-            "that the Rust f64 operations are the IEEE-754 operations of Coq's primitive floats is an assumption, supported by the bitwise "
-            "agreement of every float case of the tie"]
+UNPROVED = ["the 'few ulps' accuracy is proved for the float instance of the MODEL (Coq primitive binary64 through Flocq; no overflow / "
+            "subnormal intermediate): normwise 2.83*2^-53 for *, 7.1*2^-53 for /, componentwise 2^-53 for + - z*r z/r, exact neg/conj, "
+            "2^-52 for abs_sqr, 3*2^-53 for abs -- not for the Rust code's f64 arithmetic itself: that Rust's f64 + - * / sqrt are these "
+            "IEEE-754 operations is an assumption, supported by the bitwise agreement of every float case of the tie; the search demands "
+            "normwise <= 8*2^-53 against the exact rational result",
+            "behaviour on overflow / underflow / NaN is outside the property and is neither proved nor tied (only the bitwise agreement "
+            "of assignment and binary forms is searched there)"]
 
 MANIFEST = dict(
     text=("Theorems about the Gallina model of src/complex/mod.rs (every operator impl its own function, compound assignments as the statement "
@@ -36,13 +37,15 @@ MANIFEST = dict(
           "one are identities; every compound-assignment form equals its binary form (syntactically for all but mul_assign, which needs "
           "commutativity of + only -- proved for IEEE binary64 from the FloatAxioms specification, so all eight forms agree bit for bit in the "
           "float instance); the lexicographic ordering is a strict total order whenever the component order is (exactly one of <, =, >; "
-          "transitive; partial_cmp = Equal iff eq; lt/le/gt/ge consistent). For the float instance itself a normwise rounding bound of the "
-          "product (2.83 * 2^-53 |z||w|, no overflow/underflow) through Flocq. The model is run against the implementation on every operator "
+          "transitive; partial_cmp = Equal iff eq; lt/le/gt/ge consistent); corollaries at Q[i] and at C = R x R. For the float instance itself "
+          "(Coq primitive binary64 through Flocq, no overflow/underflow) rounding bounds for every operator: normwise 2.83*2^-53 |z||w| for the "
+          "product, 7.1*2^-53 |z|/|w| for the quotient, one rounding per component for + - z*r z/r, 3*2^-53 for |z|. The model is run against the implementation on every operator "
           "variant (Complex<Rat> vs Qc exactly on a full 4^4 grid plus random operands, Complex<f64> vs primitive floats), and independent "
           "Fraction formulae search for a failing input (exact equality on rationals; normwise 8*2^-53 on f64 over 1e-100..1e100; assignment "
           "form bitwise equal to binary form on every f64 operand pair including non-finite ones; trichotomy/transitivity on triples)."),
-    note=("Accuracy of f64 division / abs / real-scalar forms is tied and searched, not proved; the theorems are about the model, which is tied "
-          "to the Rust code by differential execution on the sampled cases (all float cases bit-identical)."),
+    note=("The accuracy theorems are about the float instance of the model (IEEE-754 binary64 as specified by Coq's FloatAxioms / Flocq), "
+          "which is tied to the Rust code by differential execution on the sampled cases (all float cases bit-identical); that Rust's f64 "
+          "operations are those IEEE operations is an assumption. Overflow/underflow/NaN behaviour is outside the property."),
     technique="Coq proof over an abstract ring/field + Flocq rounding bound + model/implementation differential execution (vm_compute vs Rust executor)",
     design="7 (C13)")
 
